@@ -310,7 +310,7 @@ fn main() {
         };
         let allow = c.allow_undefined.unwrap_or(true);
         let mut bad = false;
-        for (name, t, _default) in &c.vars {
+        for (name, t, default) in &c.vars {
             checked_vars += 1;
             let found: Vec<&(String, bool, T)> = props.iter().filter(|(k, _, _)| k == name).collect();
             if found.len() != 1 {
@@ -321,7 +321,9 @@ fn main() {
             let (_, optional, got) = found[0];
             let nullable = !matches!(t, G::NonNull(_));
             // nullable variables may be omitted exactly when the option is on; non-null ones never
-            let want_optional = nullable && allow;
+            // a non-null variable WITH a default may be declared required or omittable (the server fills the default in):
+            // the property only fixes that non-null variables WITHOUT default are required
+            let want_optional = if !nullable && default.is_some() { *optional } else { nullable && allow };
             if *optional != want_optional {
                 fail(format!("a {} variable {} be omitted although allowUndefinedAsOptionalInput is {}", if nullable { "nullable" } else { "non-null" }, if *optional { "may" } else { "may not" }, if allow { "on" } else { "off" }), format!("${name}: {}", sdl(t)), block.clone());
                 bad = true;
@@ -352,7 +354,7 @@ fn main() {
             }
         };
         let mut bad = false;
-        for (name, t, _default) in &c.vars {
+        for (name, t, default) in &c.vars {
             let found: Vec<&(String, bool, T)> = fields.iter().filter(|(k, _, _)| k == name).collect();
             if found.len() != 1 {
                 fail(format!("an input field has {} properties in the declaration of its input object", if found.is_empty() { "no".to_string() } else { found.len().to_string() }), format!("X.{name}"), decl_block.clone());
@@ -361,7 +363,8 @@ fn main() {
             }
             let (_, optional, got) = found[0];
             let nullable = !matches!(t, G::NonNull(_));
-            let want_optional = nullable && allow;
+            // as for variables: a non-null field WITH a default may be required or omittable, but never null
+            let want_optional = if !nullable && default.is_some() { *optional } else { nullable && allow };
             if *optional != want_optional {
                 fail(format!("a {} input field {} be omitted although allowUndefinedAsOptionalInput is {}", if nullable { "nullable" } else { "non-null" }, if *optional { "may" } else { "may not" }, if allow { "on" } else { "off" }), format!("X.{name}: {}", sdl(t)), decl_block.clone());
                 bad = true;
